@@ -55,7 +55,7 @@ func hasMode(t *seqTask, m string) bool {
 func runSeq(t *seqTask, hk *seqHooks) *seqResult {
 	res := &seqResult{Extra: map[string]int{}}
 	var w *harness.World
-	opts := vsched.Options{}
+	opts := vsched.Options{MaxSteps: 1 << 31}
 	var monViol []string
 	if hasMode(t, "lsm") {
 		// C06 monitor: validate every version the moment it becomes current
